@@ -12,7 +12,9 @@ import (
 func cmdCheck(prop, tier string, keep bool) int {
 	start := time.Now()
 	p := mustLoad()
+	coverClauses = tier == "thorough"
 	pr := runProperty(p, prop, tier, "")
+	coverClauses = false
 	pr.Start = start
 	wd := newWorkDir()
 	if !keep {
@@ -27,7 +29,7 @@ func cmdCheck(prop, tier string, keep bool) int {
 	bl := loadBaseline(verifDir)
 	baselineNames = bl[prop]
 	violations := 0
-	var known, undecided []string
+	var known, undecided, neverCovered []string
 	seen := map[string]bool{}
 	for _, r := range results {
 		seen[r.Name] = true
@@ -40,7 +42,10 @@ func cmdCheck(prop, tier string, keep bool) int {
 			}
 		case "finding-not-reproduced":
 			fmt.Printf("NOTE: known finding for %s no longer reproduces inside its region\n", r.Name)
-		case "discharged":
+		case "discharged", "covered":
+		case "never-covered":
+			neverCovered = append(neverCovered, r.Name)
+			fmt.Printf("WEAK-CLAUSE %s: no execution path can satisfy the hypothesis of this postcondition (it states nothing); not a violation\n", r.Name)
 		case "vacuous":
 			fmt.Printf("VACUOUS %s: precondition/invariant unsatisfiable\n", r.Name)
 			violations++
@@ -143,6 +148,7 @@ func cmdCheck(prop, tier string, keep bool) int {
 	}
 	defect := false
 	if tier == "thorough" {
+		extra["postcondition_hypotheses_never_satisfiable"] = neverCovered
 		// bounded validation of the trusted base (never counted as proof): operator models and
 		// math axioms against the real Go operations, plus a canary that must be reported
 		rep := runModelValidation(seedFromEnv())
